@@ -160,6 +160,16 @@ pub fn c12(c: &mut Ctx) {
         let y = random_cube(c, n);
         cube_unary(c, &x);
         cube_binary(c, &x, &y, true);
+        if !x.is_zero() {
+            // near-equal pairs: one literal added, removed or complemented, on the last variable half of the time
+            let v = if c.rng.coin() { n - 1 } else { c.rng.below(n) };
+            let (p, q) = cube_masks(&x);
+            let b = 1u32 << v;
+            let (p2, q2) = if p & b != 0 { (p & !b, q | b) } else if q & b != 0 { (p, q & !b) } else { (p | b, q) };
+            let y2 = Cube::from_mask(p2, q2);
+            cube_binary(c, &x, &y2, false);
+            cube_binary(c, &y2, &x, false);
+        }
         for _ in 0..3 {
             let m = match c.rng.below(3) {
                 0 => c.rng.next() as usize,
@@ -282,6 +292,19 @@ pub fn c13(c: &mut Ctx) {
         let y = random_ecube(c, n);
         ecube_unary(c, &x);
         ecube_binary(c, &x, &y, true);
+        {
+            // near-equal pairs: one variable toggled, the last one of the range half of the time
+            let v = if c.rng.coin() { n - 1 } else { c.rng.below(n) };
+            let mut vs: Vec<usize> = x.vars().collect();
+            if let Some(i) = vs.iter().position(|w| *w == v) {
+                vs.remove(i);
+            } else {
+                vs.push(v);
+            }
+            let y2 = Ecube::from_vars(&vs, x.value(0));
+            ecube_binary(c, &x, &y2, false);
+            ecube_binary(c, &y2, &x, false);
+        }
         for _ in 0..3 {
             let m = if c.rng.coin() { c.rng.next() as usize } else { (c.rng.next() as usize) & 0xffff_ffff };
             c.emit("e.value", "-", &[fecube(&x), fx(m)], call(|| x.value(m)).map(fb));
@@ -640,6 +663,50 @@ pub fn c16(c: &mut Ctx) {
                     }
                 }
             }
+        }
+    }
+    // fresh threads, high variables first: what is printed must not depend on what the thread printed before
+    for round in 0..(if c.thorough { 8 } else { 3 }) {
+        let n = 12usize;
+        let mut cubes: Vec<Cube> = Vec::new();
+        let hi = 8 + c.rng.below(4);
+        cubes.push(if round % 2 == 0 { Cube::nth_var(hi) } else { Cube::nth_var_inv(hi) });
+        for _ in 0..4 {
+            cubes.push(random_cube(c, n));
+        }
+        cubes.push(Cube::nth_var(c.rng.below(8)));
+        // (the zero cube cannot go through from_cubes)
+        let third = if cubes[1].is_zero() { Cube::nth_var_inv(10) } else { cubes[1] };
+        let sop = Sop::from_cubes(n, vec![cubes[0], Cube::nth_var(c.rng.below(8)), third]);
+        let esop = Esop::from_cubes(n, vec![cubes[0], Cube::nth_var_inv(c.rng.below(8))]);
+        let order_sop_first = round == 1;
+        let (cs, sp, ep) = (cubes.clone(), sop.clone(), esop.clone());
+        let h = std::thread::spawn(move || {
+            let mut out: Vec<Option<String>> = Vec::new();
+            if order_sop_first {
+                out.push(call(|| sp.to_string()));
+                out.push(call(|| ep.to_string()));
+            }
+            for x in cs.iter() {
+                out.push(call(|| x.to_string()));
+            }
+            if !order_sop_first {
+                out.push(call(|| sp.to_string()));
+                out.push(call(|| ep.to_string()));
+            }
+            out
+        });
+        let mut out = h.join().unwrap().into_iter();
+        if order_sop_first {
+            c.emit("s.display", "-", &[fsop(&sop)], out.next().unwrap().map(|t| fbytes(t.as_bytes())));
+            c.emit("x.display", "-", &[fesop(&esop)], out.next().unwrap().map(|t| fbytes(t.as_bytes())));
+        }
+        for x in cubes.iter() {
+            c.emit("c.display", "-", &[fcube(x)], out.next().unwrap().map(|t| fbytes(t.as_bytes())));
+        }
+        if !order_sop_first {
+            c.emit("s.display", "-", &[fsop(&sop)], out.next().unwrap().map(|t| fbytes(t.as_bytes())));
+            c.emit("x.display", "-", &[fesop(&esop)], out.next().unwrap().map(|t| fbytes(t.as_bytes())));
         }
     }
     // all forms with <= 3 terms over n <= 3 (sampled for 3 terms unless thorough)
